@@ -15,10 +15,10 @@ def generate(G):
     # two iterations, mse and batches of two cost 10-30 min of symex each: thorough
     dense([1, 2], 2, 1, "Relu", "Bilinear", 1, "quick")
     dense([2], 2, 1, "None", "Bilinear", 1, "quick")
-    dense([1, 1], 1, 1, "None", "Bilinear", 1, "quick")
-    dense([1, 1], 1, 1, "None", "Mse", 1, "thorough", stubs=("powf",))
-    dense([2, 1], 1, 1, "None", "Bilinear", 1, "thorough")
-    dense([1, 1], 1, 1, "None", "Bilinear", 2, "thorough")
+    dense([1, 1], 1, 1, "None", "Bilinear", 2, "quick")
+    dense([1, 1], 1, 1, "None", "Mse", 1, "quick", stubs=("powf",))
+    dense([2, 1], 1, 1, "None", "Bilinear", 1, "quick")
+    dense([1, 1], 1, 1, "None", "Bilinear", 1, "thorough")
     dense([2, 2], 2, 1, "None", "Mse", 1, "thorough", stubs=("powf",))
     dense([1, 2], 2, 1, "None", "Mse", 2, "thorough", stubs=("powf",))
     dense([2, 1], 1, 2, "None", "Bilinear", 2, "thorough")
